@@ -51,15 +51,15 @@ Proof.
   - apply all_fail_justified. intros sid oc [I|[]]. inv I; eauto.
 Qed.
 
-Lemma send_ok_ssum : forall s t ch cnt b s' o, pre s -> (cnt <? 1) || (b <? 0) = false ->
+Lemma send_ok_ssum : forall s t ch cnt b s' o, pre s -> (cnt <? 1) || (b <? 0) = false -> stopping s = false ->
   step c s (ESend t ch cnt b) = (s', o) -> ssum c s (ESend t ch cnt b) s' o.
 Proof.
-  intros s t ch cnt b s' o [W ST PO PL] V H. unfold step, core in H. rewrite V in H. cbn [apply_epi] in H.
+  intros s t ch cnt b s' o [W ST PO PL] V NST H. unfold step, core in H. rewrite V, NST in H. cbn [apply_epi] in H.
   set (x := {| s_id := nsend s; s_topic := t; s_choice := ch; s_cnt := cnt; s_bytes := b |}) in *.
   set (s0 := set_ids s (nsend s + 1) (nload s) (ntimer s)) in *.
   set (s1 := set_outstanding (set_queue s0 (queue s0 ++ [x]) (wcnt s0 + cnt) (wbytes s0 + b)) (outstanding s0 ++ [nsend s])) in *.
   destruct (check_send_batch c s1) as [s2 o2] eqn:E. inv H.
-  assert (NR : newrec s (ESend t ch cnt b) = [x]) by (simpl; rewrite V; reflexivity).
+  assert (NR : newrec s (ESend t ch cnt b) = [x]) by (simpl; rewrite V, NST; reflexivity).
   assert (W1 : phase_wf s1).
   { unfold phase_wf in *; simpl. destruct (ph s) eqn:P; auto; (destruct W as [W CL]; split; auto;
     intros pl y A NI B O; apply in_app_or in O as [O|[O|[]]]; [eapply CL; eauto|];
@@ -296,7 +296,10 @@ Proof.
   - destruct ((cnt <? 1) || (bytes <? 0)) eqn:V.
     + unfold step, core in H. rewrite V in H. cbn [apply_epi] in H. inv H.
       apply send_bad_ssum; auto. simpl. rewrite V; auto.
-    + apply send_ok_ssum; auto.
+    + destruct (stopping s) eqn:NST.
+      * unfold step, core in H. rewrite V, NST in H. cbn [apply_epi] in H. inv H.
+        apply send_bad_ssum; auto. simpl. rewrite V, NST; auto.
+      * apply send_ok_ssum; auto.
   - unfold step, core in H. cbn [apply_epi] in H. inv H. apply send_bad_ssum; auto.
   - apply cancel_ssum; auto.
   - apply tick_ssum; auto.
